@@ -19,17 +19,39 @@ pub open spec fn c_lo<T: Table>(j: int) -> int { (T::CHILDREN@[j] & lmask(T::CHI
 pub open spec fn c_hi<T: Table>(j: int) -> int { ((T::CHILDREN@[j] >> T::CHILDREN_BITS_LO) & lmask(T::CHILDREN_BITS_HI)) as int }
 pub open spec fn c_type<T: Table>(j: int) -> u32 { ((T::CHILDREN@[j] >> T::CHILDREN_BITS_LO) >> T::CHILDREN_BITS_HI) & lmask(T::CHILDREN_BITS_NODE_TYPE) }
 pub open spec fn label_of<T: Table>(i: int) -> Seq<u8> { sb(T::TEXT).subrange(n_off::<T>(i), sb(T::TEXT).len() as int).subrange(0, n_len::<T>(i)) }
-// well-formedness of a table: every decoded range is inside its array, the text is ASCII
-pub open spec fn table_wf<T: Table>() -> bool {
+// well-formedness of a table.  nodes_wf: every decoded text range is inside TEXT (which is ASCII) and every
+// children index is inside CHILDREN; table_wf adds: every [lo, hi) is inside NODES, the labels of every sibling
+// range are strictly increasing (what the binary search relies on), TLD nodes are not exceptions.
+pub open spec fn nodes_wf<T: Table>() -> bool {
     &&& T::NODES_BITS_TEXT_LENGTH < 32 &&& T::NODES_BITS_TEXT_OFFSET < 32 &&& T::NODES_BITS_ICANN < 32 &&& T::NODES_BITS_CHILDREN < 32
     &&& T::NODES_BITS_TEXT_OFFSET + T::NODES_BITS_TEXT_LENGTH < 32
-    &&& T::CHILDREN_BITS_LO < 32 &&& T::CHILDREN_BITS_HI < 32 &&& T::CHILDREN_BITS_NODE_TYPE < 32 &&& T::CHILDREN_BITS_WILDCARD < 32
-    &&& T::NUM_TLD <= T::NODES@.len() &&& T::NODES@.len() <= 0x7fff_ffff
-    &&& T::NODE_TYPE_NORMAL != T::NODE_TYPE_EXCEPTION
+    &&& T::NODES@.len() <= 0x7fff_ffff
     &&& forall|k: int| 0 <= k < sb(T::TEXT).len() ==> #[trigger] sb(T::TEXT)[k] < 128
     &&& forall|i: int| #![trigger T::NODES@[i]] 0 <= i < T::NODES@.len() ==> n_off::<T>(i) + n_len::<T>(i) <= sb(T::TEXT).len() && n_child::<T>(i) < T::CHILDREN@.len()
+}
+pub open spec fn sorted_range<T: Table>(lo: int, hi: int) -> bool {
+    forall|i: int, k: int| #![trigger label_of::<T>(i), label_of::<T>(k)] lo <= i < k < hi ==> lex_lt(label_of::<T>(i), label_of::<T>(k))
+}
+pub open spec fn table_wf<T: Table>() -> bool {
+    &&& nodes_wf::<T>()
+    &&& T::CHILDREN_BITS_LO < 32 &&& T::CHILDREN_BITS_HI < 32 &&& T::CHILDREN_BITS_NODE_TYPE < 32 &&& T::CHILDREN_BITS_WILDCARD < 32
+    &&& T::NUM_TLD <= T::NODES@.len()
+    &&& T::NODE_TYPE_NORMAL != T::NODE_TYPE_EXCEPTION
     &&& forall|j: int| #![trigger T::CHILDREN@[j]] 0 <= j < T::CHILDREN@.len() ==> c_lo::<T>(j) <= c_hi::<T>(j) <= T::NODES@.len()
     &&& forall|i: int| #![trigger T::NODES@[i]] 0 <= i < T::NUM_TLD ==> c_type::<T>(n_child::<T>(i)) != T::NODE_TYPE_EXCEPTION
+    &&& sorted_range::<T>(0, T::NUM_TLD as int)
+    &&& forall|j: int| #![trigger T::CHILDREN@[j]] 0 <= j < T::CHILDREN@.len() ==> sorted_range::<T>(c_lo::<T>(j), c_hi::<T>(j))
+}
+pub proof fn lemma_adjacent_sorted<T: Table>(lo: int, hi: int, i: int, k: int)
+    requires forall|a: int| #![trigger label_of::<T>(a)] lo <= a && a + 1 < hi ==> lex_lt(label_of::<T>(a), label_of::<T>(a + 1)), lo <= i < k < hi,
+    ensures lex_lt(label_of::<T>(i), label_of::<T>(k))
+    decreases k - i
+{
+    if k == i + 1 { } else {
+        lemma_adjacent_sorted::<T>(lo, hi, i, k - 1);
+        assert(lex_lt(label_of::<T>(k - 1), label_of::<T>((k - 1) + 1)));
+        lemma_lex_trans(label_of::<T>(i), label_of::<T>(k - 1), label_of::<T>(k));
+    }
 }
 // label boundaries, from the statement: a cut at the start or right after a '.'
 pub open spec fn lb(b: Seq<u8>, i: int) -> bool { i == 0 || (0 < i <= b.len() && b[i - 1] == 46u8) }
@@ -50,6 +72,30 @@ pub open spec fn no_empty_label(b: Seq<u8>) -> bool { !(b.len() > 0 && b[0] == 4
 //@   rule R5lt s label
 //@ extract psl fn after_or_all
 
+/// Verified checker, part 1: sibling labels in [lo, hi) strictly increasing.
+pub fn check_sorted<T: Table>(lo: usize, hi: usize) -> (ok: bool)
+    requires nodes_wf::<T>(), lo <= hi <= T::NODES@.len(),
+    ensures ok ==> sorted_range::<T>(lo as int, hi as int)
+{
+    let p = ListProvider::<T>::new();
+    let mut i = lo;
+    while i + 1 < hi
+        invariant nodes_wf::<T>(), lo <= i <= T::NODES@.len(), hi <= T::NODES@.len(), T::NODES@.len() <= 0x7fff_ffff,
+            forall|a: int| #![trigger label_of::<T>(a)] lo <= a < i ==> lex_lt(label_of::<T>(a), label_of::<T>(a + 1)),
+        decreases hi - i,
+    {
+        let a = p.node_label(i as u32);
+        let b = p.node_label((i + 1) as u32);
+        if !a.vx_lt(b) { return false; }
+        i += 1;
+    }
+    proof {
+        assert forall|x: int, y: int| #![trigger label_of::<T>(x), label_of::<T>(y)] lo <= x < y < hi implies lex_lt(label_of::<T>(x), label_of::<T>(y)) by {
+            lemma_adjacent_sorted::<T>(lo as int, hi as int, x, y);
+        }
+    }
+    true
+}
 /// Verified checker: if it returns true the table satisfies `table_wf`.  It is compiled and run on the
 /// shipped table (the constants of tld_list.rs, extracted on every run).
 pub fn check_table<T: Table>() -> (ok: bool)
@@ -102,6 +148,24 @@ pub fn check_table<T: Table>() -> (ok: bool)
             if ty == T::NODE_TYPE_EXCEPTION { return false; }
         }
         i += 1;
+    }
+    assert(nodes_wf::<T>());
+    // sibling ranges sorted: the root range and every children entry
+    if !check_sorted::<T>(0, T::NUM_TLD as usize) { return false; }
+    let mut j2: usize = 0;
+    while j2 < T::CHILDREN.len()
+        invariant
+            j2 <= T::CHILDREN@.len(), nodes_wf::<T>(), T::CHILDREN_BITS_LO < 32, T::CHILDREN_BITS_HI < 32,
+            forall|n: u32| n < 32 ==> (1u32 << n) >= 1,
+            forall|jj: int| #![trigger T::CHILDREN@[jj]] 0 <= jj < T::CHILDREN@.len() ==> c_lo::<T>(jj) <= c_hi::<T>(jj) <= T::NODES@.len(),
+            forall|jj: int| #![trigger T::CHILDREN@[jj]] 0 <= jj < j2 ==> sorted_range::<T>(c_lo::<T>(jj), c_hi::<T>(jj)),
+        decreases T::CHILDREN@.len() - j2,
+    {
+        let u = T::CHILDREN[j2];
+        let lo = u & ((1 << T::CHILDREN_BITS_LO) - 1);
+        let hi = (u >> T::CHILDREN_BITS_LO) & ((1 << T::CHILDREN_BITS_HI) - 1);
+        if !check_sorted::<T>(lo as usize, hi as usize) { return false; }
+        j2 += 1;
     }
     true
 }
